@@ -15,7 +15,9 @@ WHOLE_KEYS = ["S", "L", "S.T"]  # prefixes of other keys (read as a whole sectio
 
 SCALARS = [0, 1, 2, True, False, None, "", "a", "b"]
 DISPATCH_VALUES = ["a", "b", "c", 1, 2, None]  # hashable; no two equal in Python
-TEMPLATES = ["{A}", "{B}", "p{S.X}q", "{S.Y}", "x{C}", "\\{lit\\}", "{M}"]
+# (escaped braces appear in Template node texts only: a dictionary value "\\{lit\\}" resolves to "{lit}", which a
+#  template that stringifies it would re-interpret as a reference — a C09 matter, not claimed here)
+TEMPLATES = ["{A}", "{B}", "p{S.X}q", "{S.Y}", "x{C}", "{M}", "{B}{C}"]
 
 
 def canon(v):
